@@ -209,3 +209,5 @@ MANIFEST = {
     'technique': 'interprocedural exception-escape analysis + CFG reachability + loop variants',
     'design_ref': 'DESIGN.md 3/C17',
 }
+MANIFEST['note'] += (' Also decided here (necessary conditions shared between properties or added after the independent '
+                     'change rounds, DESIGN.md 8.7): kernel teardown (from C10/C14), parse errors leave process_message, distinct IkeSa.State values.')
